@@ -27,8 +27,10 @@ let snap (st : state) =
   let ps = st.st_reg.pools in
   let ent p =
     let ls = sorted (List.map (fun (sl, s) -> dn sl ^ "=" ^ sid_name s) p.p_leases) in
-    let fs = sorted (List.map dn p.p_free) in
-    famch p.p_fam ^ ":" ^ pool_name p.p_fam p.p_prof p.p_key ^ ":L[" ^ String.concat "," ls ^ "]F[" ^ String.concat "," fs ^ "]" in
+    (* how many addresses the pool can still hand out (the implementation's Available()); which one an allocation
+       returns is the implementation's choice, followed through the candidate list *)
+    famch p.p_fam ^ ":" ^ pool_name p.p_fam p.p_prof p.p_key ^ ":L[" ^ String.concat "," ls ^ "]F["
+    ^ string_of_int (List.length p.p_free) ^ "]" in
   String.concat " " (sorted (List.map ent ps))
 
 let psnap (st : state) =
